@@ -119,6 +119,8 @@ P_NoCollapse(c) == \A i \in {3, 4} : (c.tscalar /\ Container(c.x) /\ c.x.k # "di
 P_StrictBytes(c) == \A i \in {3, 4} : (c.x.k = "bytes" /\ c.fx.badutf8 /\ c.T \notin {"bytes", "bytearray", "Any"}) => ~c.out[i].ok
 P_NoTimeToDate(c) == \A i \in {3, 4} : (c.T = "date" /\ c.fx.hastime) => ~c.out[i].ok
 P_NoExtra(c) == \A i \in {3, 4} : c.fx.extra => ~c.out[i].ok                 \* extra tuple items / unknown keys
+\* "dict([{'a': 1, 'b': 2}]) == {'a': 'b'} is consider a data loss" (to_dict): a sequence holding one mapping is never read as key-value pairs
+P_NoPairLoss(c) == \A i \in {3, 4} : ("mapkeys" \in DOMAIN c.fx /\ c.fx.mapkeys > 1 /\ c.T = "dict" /\ c.out[i].ok) => Len(c.out[i].v.ks) = c.fx.mapkeys
 \* (3) no_explicit_cast converts only within a primitive group, apart from the documented exceptions
 Groups(x) == (IF x.k = "none" THEN {"null"} ELSE {}) \cup
              (IF x.k = "bool" \/ (Numeric(x) /\ (x.n = 0 \/ x.n = x.d)) THEN {"boolean"} ELSE {}) \cup     \* "0, 1, True, False"
